@@ -1,4 +1,5 @@
 """C09 - Compilation is total: any input text yields success or a parser error."""
+import json
 import os
 import re
 import shutil
@@ -247,6 +248,9 @@ def worker(ctx):
         if proto is not None and (origin != "valid" or rng.random() < 0.3) and accepted_rendered < n_inputs // 6:
             accepted_rendered += 1
             render_all(proto, text, origin)
+    if not ctx.quick:
+        ctx.set_budget(3400)
+        atheris_tier(ctx, workdir, seeds, 1200)
     # CLI: a traceback must never reach stderr (sample)
     samples = [("proto x\nconst A = 1 / 0\n", "div0"), ("proto x\nmessage M { import \"lib.bitproto\" }\n", "import-in-message"),
                ("proto x\nenum E : uint3 {}\nmessage M { E e = 1 }\n", "empty-enum-field"), ("message", "truncated"), ("", "empty")]
@@ -264,9 +268,48 @@ def worker(ctx):
                 res.violation(key, f"CLI {lang} on {name}: Python traceback on stderr: {exc[:200]}", {"input": text, "stderr": se[-1500:]})
 
 
-def thorough_atheris(res):
-    """Coverage-guided tier: atheris workers in subprocesses (libFuzzer -timeout as the hang watchdog)."""
-    return
+def atheris_tier(ctx, workdir, seeds, seconds):
+    """Coverage-guided tier (thorough only): libFuzzer via atheris in a subprocess, corpus = printed valid schemas."""
+    res = ctx.res
+    corpus = os.path.join(workdir, "corpus")
+    os.makedirs(corpus, exist_ok=True)
+    for k, toks in enumerate(seeds):
+        with open(os.path.join(corpus, f"seed{k}"), "w") as fh:
+            fh.write("".join(toks))
+    dictfile = os.path.join(workdir, "dict")
+    with open(dictfile, "w") as fh:
+        for t in sorted(set(VOCAB)):
+            if t.strip() and all(32 <= ord(c) < 127 for c in t):
+                fh.write('"' + t.replace("\\", "\\\\").replace('"', '\\"') + '"\n')
+    findings = os.path.join(workdir, "atheris.json")
+    art = os.path.join(workdir, "artifacts") + os.sep
+    os.makedirs(art, exist_ok=True)
+    cmd = [env.PYTHON, os.path.join(env.VERIF, "props", "c09_atheris.py"), workdir, findings, corpus, f"-max_total_time={int(seconds)}", "-timeout=25",
+           f"-dict={dictfile}", "-max_len=2048", f"-artifact_prefix={art}", f"-seed={ctx.seed * 1000 + ctx.shard}", "-print_final_stats=1"]
+    try:
+        p = subprocess.run(cmd, capture_output=True, text=True, timeout=seconds + 300, env=env.child_env(), cwd=workdir)
+    except subprocess.TimeoutExpired:
+        res.inconclusive.append("atheris subprocess did not finish")
+        return
+    log = p.stderr[-3000:]
+    m = re.search(r"stat::number_of_executed_units: (\d+)", p.stderr)
+    if m:
+        res.count("atheris_executions", int(m.group(1)))
+    cov = re.findall(r"cov: (\d+)", p.stderr)
+    if cov:
+        res.counters["atheris_edge_coverage_max"] = max(res.counters.get("atheris_edge_coverage_max", 0), int(cov[-1]))
+    if os.path.exists(findings):
+        data = json.load(open(findings))
+        res.count("atheris_accepted", data["stats"]["accepted"])
+        for key, f in data["findings"].items():
+            res.violation(key, f"[atheris] {f['what']}", {"input": f["input"], "traceback": f["traceback"], "origin": "atheris"})
+    for name in os.listdir(art):
+        if name.startswith("timeout-"):
+            text = open(os.path.join(art, name), "rb").read().decode("utf-8", "replace")
+            res.violation("hang", f"[atheris] libFuzzer reported a unit exceeding 25 s ({len(text)} characters)", {"input": text[:4000], "origin": "atheris"})
+        elif name.startswith("crash-"):
+            text = open(os.path.join(art, name), "rb").read().decode("utf-8", "replace")
+            res.violation("parse-internal:process-crash", f"[atheris] the process crashed on an input: {log[-300:]}", {"input": text[:4000], "origin": "atheris"})
 
 
 if __name__ == "__main__":
